@@ -67,3 +67,109 @@ class AxisMapUnordered(Contract):
         return f(a.self, type(a.self).map_forward(a.self, a.u))
 
     ensures = [prop("backward-of-forward-is-identity", lambda a, old, r: eq(r, a.u))]
+
+
+# -- full design locations (C10): a dimension a source / instance leaves out is at the axis
+# default MAPPED TO DESIGN SPACE, never at the raw user-space default -------------------------------
+
+class _StubAxis:
+    """Axis whose map_forward is an uninterpreted function MF_i (the callee's own contract,
+    AxisMapRoundTrip / PiecewiseLinearMap, is verified separately)."""
+
+    def __init__(self, S, i):
+        self.name = "axis%d" % i
+        self.default = S.real("default%d" % i)
+        self._S, self._i = S, i
+
+    def map_forward(self, v):
+        if self._S.concrete:
+            return v * 3 + 7 + self._i          # native replay: a fixed injective function
+        import z3
+        from pyvc.sym import SymNum, _lift
+        return SymNum(z3.Function("MF%d" % self._i, z3.RealSort(), z3.RealSort())(z3.ToReal(_lift(v).t) if _lift(v).is_int else _lift(v).t))
+
+
+class _Doc:
+    def __init__(self, axes):
+        self.axes = axes
+
+
+_PRESENT = ((), (0,), (1,), (0, 1))
+
+
+def _loc_expect(a, r, design, user=None):
+    out = [len(r) == len(a.doc.axes)]
+    for ax in a.doc.axes:
+        if ax.name in design:
+            want = design[ax.name]
+        elif user is not None and ax.name in user:
+            want = ax.map_forward(user[ax.name])
+        else:
+            want = ax.map_forward(ax.default)
+        out.append(eq(r[ax.name], want))
+    return And(*out)
+
+
+@contract
+class SourceFullDesignLocation(Contract):
+    """SourceDescriptor.getFullDesignLocation: every axis of the document gets a coordinate; an
+    axis named in designLocation keeps that value, any other axis is at map_forward(default)."""
+    module = "fontTools.designspaceLib"
+    qualname = "SourceDescriptor.getFullDesignLocation"
+    props = ("C10", "C19")
+    variants = _PRESENT
+    level = "PF"
+    assumptions = ("A-REAL",)
+
+    def args(self, S, variant):
+        from fontTools.designspaceLib import SourceDescriptor
+        src = SourceDescriptor()
+        src.designLocation = {"axis%d" % i: S.real("loc%d" % i) for i in variant}
+        return dict(self=src, doc=_Doc([_StubAxis(S, 0), _StubAxis(S, 1)]))
+
+    ensures = [prop("omitted-axes-sit-at-the-mapped-default", lambda a, old, r: _loc_expect(a, r, a.self.designLocation))]
+
+
+@contract
+class InstanceFullDesignLocation(Contract):
+    """InstanceDescriptor.getFullDesignLocation (no location label): designLocation wins, then
+    map_forward(userLocation), then map_forward(default) - per axis."""
+    module = "fontTools.designspaceLib"
+    qualname = "InstanceDescriptor.getFullDesignLocation"
+    props = ("C10", "C19")
+    variants = tuple((d, u) for d in _PRESENT for u in _PRESENT)
+    level = "PF"
+    assumptions = ("A-REAL",)
+
+    def args(self, S, variant):
+        from fontTools.designspaceLib import InstanceDescriptor
+        d, u = variant
+        inst = InstanceDescriptor()
+        inst.designLocation = {"axis%d" % i: S.real("loc%d" % i) for i in d}
+        inst.userLocation = {"axis%d" % i: S.real("user%d" % i) for i in u}
+        inst.locationLabel = None
+        doc = _Doc([_StubAxis(S, 0), _StubAxis(S, 1)])
+        doc.locationLabels = []
+        return dict(self=inst, doc=doc)
+
+    ensures = [prop("design-then-user-then-default", lambda a, old, r: _loc_expect(a, r, a.self.designLocation, a.self.userLocation))]
+
+
+@contract
+class DocMapForward(Contract):
+    """DesignSpaceDocument.map_forward: every axis mapped; a missing coordinate is the mapped default."""
+    module = "fontTools.designspaceLib"
+    qualname = "DesignSpaceDocument.map_forward"
+    props = ("C10", "C19")
+    variants = _PRESENT
+    level = "PF"
+    assumptions = ("A-REAL",)
+
+    def args(self, S, variant):
+        return dict(self=_Doc([_StubAxis(S, 0), _StubAxis(S, 1)]), userLocation={"axis%d" % i: S.real("user%d" % i) for i in variant})
+
+    def call(self, f, a):
+        a.doc = a.self
+        return f(a.self, a.userLocation)
+
+    ensures = [prop("user-location-mapped-per-axis", lambda a, old, r: _loc_expect(a, r, {}, a.userLocation))]
